@@ -48,10 +48,11 @@ Definition take_notes (c : cfg) (k : nat) (evs : list event) : option (option Z 
     else Some (od, r)
   end.
 
-(** a reported delay is either Stop (only once MaxElapsedTime has certainly... possibly passed)
+(** a reported delay is either Stop (only if more than MaxElapsedTime can have elapsed, or
+    MaxElapsedTime < 0 where the code always stops)
     or lies in the randomisation interval of the current interval *)
 Definition delay_ok (c : cfg) (sk : slack) (k : nat) (cur d ts end0 ts1 prev_end : Z) : bool :=
-  ((d =? STOP) && (0 <? max_elapsed c) && (max_elapsed c <? ts - end0))
+  ((d =? STOP) && (((0 <? max_elapsed c) && (max_elapsed c <? ts - end0)) || (max_elapsed c <? 0)))
   || ((delay_lo (rfac c) cur - sl_d sk <=? d) && (d <=? delay_hi (rfac c) cur + sl_d sk)
       && ((max_elapsed c =? 0) || (k <=? 1)%nat || (prev_end - ts1 <=? max_elapsed c))).
 
@@ -73,7 +74,7 @@ Definition timing_ok (c : cfg) (sk : slack) (o : obs) (k : nat) (w : option Z) (
 (** lower bound of a wait whose value was not reported (the successful retry; no hook/logger) *)
 Definition unknown_wait (c : cfg) (cur : option Z) (ts end0 : Z) : option Z :=
   match cur with
-  | Some cu => if (0 <? max_elapsed c) && (max_elapsed c <? ts - end0) then None
+  | Some cu => if ((0 <? max_elapsed c) && (max_elapsed c <? ts - end0)) || (max_elapsed c <? 0) then None
                else Some (delay_lo (rfac c) cu)
   | None => None
   end.
